@@ -187,6 +187,9 @@ def selector_bodies(spec):
             sel(s[1])
         if s[0] in ("case", "bind"):
             sel(s[1])
+        if s[0] == "case":
+            for pred, _ in s[2]:
+                sel(pred)          # a condition produced by a dataset is evaluated to choose the branch
         if s[0] == "map":
             for _, it in s[2]:
                 sel(it)
@@ -393,11 +396,11 @@ class CustomError(Exception):
 def _exc_factories():
     return [
         lambda m: ValueError(m), lambda m: KeyError(m), lambda m: RuntimeError(m), lambda m: CustomError(m),
-        lambda m: EvaluationError(m, None), lambda m: KeyNotFoundError("USERKEY", None),
+        lambda m: EvaluationError(m, None), lambda m: KeyNotFoundError("USERKEY", None), lambda m: TypeError(m),
     ]
 
 
-EXC_NAMES = ["ValueError", "KeyError", "RuntimeError", "custom Exception subclass", "EvaluationError", "KeyNotFoundError"]
+EXC_NAMES = ["ValueError", "KeyError", "RuntimeError", "custom Exception subclass", "EvaluationError", "KeyNotFoundError", "TypeError"]
 
 
 def fault_names(spec):
@@ -407,6 +410,9 @@ def fault_names(spec):
         ns.append("pred")
     if "applyopt" in kinds:
         ns.append("step")
+    for x in walk(spec):
+        if x[0] == "optdom":
+            ns.append("dom:" + x[1])
     return ns[:4]
 
 
